@@ -184,6 +184,12 @@ def gen_case(r, k, same=None, long_=False):
     for t in range(1, nsteps):
         if steps[t].get("event"):
             steps[t]["z"] = list(steps[t - 1]["z"])
+    # a configuration that must be refused, given in the middle of the session (a second abf with minSamples >= fullSamples, or an
+    # abf on a variable that does not exist): the running bias must be unaffected
+    if r.random() < 0.2:
+        steps[r.randint(1, nsteps - 1)]["badconfig"] = r.choice(["minfull", "novar"])
+    # the abf block without a name: the bias gets the default name abf1
+    c["unnamed"] = r.random() < 0.2
     if c["late"]:
         npre = r.randint(1, 3)
         c["pre"] = [{"z": st["z"], "e": st["e"]} for st in steps[:npre]]
@@ -384,7 +390,7 @@ def config_lines(c, part="all"):
         if v["periodic"]:
             L += ["    period %s" % fmt(v["P"]), "    wrapAround %s" % fmt(v["c"])]
         L += ["  }", "}"]
-    abf = ["abf {", "  name a", "  colvars " + " ".join("v%d" % d for d in range(nd)),
+    abf = ["abf {"] + ([] if c.get("unnamed") else ["  name a"]) + ["  colvars " + " ".join("v%d" % d for d in range(nd)),
            "  fullSamples %d" % c.get("full_cfg", c["full"]), "  minSamples %d" % c.get("min_cfg", c["min"]),
            "  applyBias %s" % ("on" if c["apply"] else "off"), "  updateBias %s" % ("on" if c["update"] else "off")]
     if c["cap"]:
@@ -442,6 +448,11 @@ def emit_inputs(c, st, amap):
     return L
 
 
+def bname(c):
+    """name of the abf bias: given, or the default name of the first abf"""
+    return "abf1" if c.get("unnamed") else "a"
+
+
 def state_name(c, n):
     return "%s_r%d" % (c["id"], n)
 
@@ -481,18 +492,22 @@ def scenario(c):
                 L += config_lines(c)
                 cur_apply = c["apply"]
             if ev["fmt"] in ("str", "buf"):
-                L += ["load%s %s.colvars.state" % (ev["fmt"], state_name(c, nev)), "echo LOADED", "dumpabf a"]
+                L += ["load%s %s.colvars.state" % (ev["fmt"], state_name(c, nev)), "echo LOADED", "dumpabf %s" % bname(c)]
             else:
-                L += ["load %s" % state_name(c, nev), "echo LOADED", "dumpabf a"]
+                L += ["load %s" % state_name(c, nev), "echo LOADED", "dumpabf %s" % bname(c)]
             nev += 1
+        if st.get("badconfig"):
+            L += ["echo BADCONFIG", "config EOF", "abf {", "  name bad",
+                  "  colvars %s" % ("v0" if st["badconfig"] == "minfull" else "nosuchvariable"),
+                  "  fullSamples 2", "  minSamples %d" % (5 if st["badconfig"] == "minfull" else 0), "}", "EOF"]
         L += emit_inputs(c, st, amap)
         if apply_at(c, st) != cur_apply:
             cur_apply = apply_at(c, st)
-            L.append("script cv bias a set apply_force %d" % (1 if cur_apply else 0))
+            L.append("script cv bias %s set apply_force %d" % (bname(c), 1 if cur_apply else 0))
         if st["boundary"]:
             L.append("runboundary")
         L.append("step")
-        L.append("dumpabf a")
+        L.append("dumpabf %s" % bname(c))
     # second observation channel: the ABF block of the saved state (samples / gradient = value_output)
     L.append("save text %s.state" % c["id"])
     # third channel: the <prefix>.count / <prefix>.grad files written at the end of the run
@@ -588,6 +603,7 @@ nextload = False
 
 def parse_impl(text):
     global nextload
+    nextbad = False
     """output of c04unit for a batch -> {case id: {"config": str, "steps": [fields], "err": [..]}}"""
     res = {}
     cur = None
@@ -598,6 +614,7 @@ def parse_impl(text):
         if w[0] == "echo" and len(w) >= 3 and w[1] == "CASE":
             cur = {"config": None, "steps": [], "errs": [], "loads": [], "loaderr": []}
             nextload = False
+            nextbad = False
             res[w[2]] = cur
         elif cur is None:
             continue
@@ -605,8 +622,13 @@ def parse_impl(text):
             nextload = True
         elif w[0] == "LOAD":
             cur["loaderr"].append(w[1] if len(w) > 1 else "")
+        elif w[0] == "echo" and len(w) >= 2 and w[1] == "BADCONFIG":
+            nextbad = True
         elif w[0] == "CONFIG":
-            if cur["config"] is None or "err=ok" in cur["config"]:
+            if nextbad:
+                cur.setdefault("badcfg", []).append(line)
+                nextbad = False
+            elif cur["config"] is None or "err=ok" in cur["config"]:
                 cur["config"] = line
         elif w[0] == "STEP":
             cur["errs"].append(w[2] if len(w) > 2 else "")
@@ -1448,6 +1470,9 @@ def check(run):
         run.dist("inputPrefix_datasets", len(inputs_of(c)))
         run.dist("applyBias_switched_at_run_time", 1 if c.get("toggle") else 0)
         run.dist("abf_defined_at_run_time", 1 if c.get("pre") else 0)
+        run.dist("unnamed_abf", 1 if c.get("unnamed") else 0)
+        run.dist("restart_with_new_configuration", sum(1 for s_ in c["steps"] if s_.get("event", {}).get("newcfg")))
+        run.dist("job_starts_at_huge_step", 1 if c.get("step0", 0) >= 2 ** 31 - 2 else 0)
         for stp in c["steps"]:
             if stp.get("event"):
                 run.dist("state_%s_%s" % (stp["event"]["kind"], stp["event"]["fmt"]))
@@ -1459,6 +1484,13 @@ def check(run):
             run.violation(sig, "case %s: %s" % (c["id"], text), {"kind": "case", "case": c})
         if im.get("state") is None:
             run.mismatch("abf:state-file", {"case": c}, None, "a text state with an abf block")
+        nbad = sum(1 for s_ in c["steps"] if s_.get("badconfig"))
+        if nbad:
+            run.dist("rejected_configuration_mid_session", nbad)
+            got = im.get("badcfg", [])
+            if len(got) != nbad or any("err=ok" in l_ for l_ in got):
+                run.violation("config:accepted-mid-session", "case %s: a configuration that must be refused (abf with minSamples >= fullSamples / on an unknown variable) given between two steps was answered %s"
+                              % (c["id"], got), {"kind": "case", "case": c})
         # tie: implementation vs model, step by step
         tie_case(run, c, im, mout[k] if k < len(mout) else None)
         if k < 2:
